@@ -41,8 +41,12 @@ def parse(path):
     return props, expects
 
 
-def run_one(path, scratch, tier="quick"):
-    props, expects = parse(path)
+def run_one(path, scratch, tier="quick", only_prop=None, expects=None, baseline=()):
+    props, expects0 = parse(path)
+    if expects is None:
+        expects = expects0
+    if only_prop is not None:
+        props = [only_prop]
     r = subprocess.run(["git", "apply", "--unsafe-paths", "--directory", scratch, path], cwd="/", capture_output=True, text=True)
     if r.returncode != 0:
         r = subprocess.run(["patch", "-p1", "-s", "-d", scratch, "-i", path], capture_output=True, text=True)
@@ -50,11 +54,13 @@ def run_one(path, scratch, tier="quick"):
             return "skipped", "patch does not apply: " + (r.stderr or r.stdout)[-300:]
     try:
         evd = tempfile.mkdtemp(prefix="ev", dir=SCRATCH_ROOT)
-        env = dict(os.environ, SWIMVERIFY_REPO=scratch, SWIMVERIFY_EVIDENCE_DIR=evd)
+        env = dict(os.environ, SWIMVERIFY_REPO=scratch, SWIMVERIFY_EVIDENCE_DIR=evd, SWIMVERIFY_NO_REPLAY="1")
         results = []
         for prop in props:
             p = subprocess.run([os.path.join(VERIF, "swimverify"), "check", prop, "--tier", tier, "-v"], env=env, capture_output=True, text=True, cwd=VERIF)
             viol = [l.strip() for l in p.stdout.splitlines() if l.strip().startswith("[violation]")]
+            # reports that the unmodified tree already has (known findings, or a defect under investigation) are not the mutant's
+            viol = [v for v in viol if v.split()[1] not in baseline]
             results.append((prop, p.returncode, viol, p.stdout[-1500:] + p.stderr[-1500:]))
         shutil.rmtree(evd, ignore_errors=True)
         allviol = [v for _, _, vs, _ in results for v in vs]
